@@ -33,7 +33,7 @@ theorem inverse_mul_self (N : Nat) (hN : [N] ∈ squares) (j : Nat) (hj : j < N 
       simp only [squares, List.mem_cons, List.cons.injEq, and_true, List.not_mem_nil, or_false] at hN
       rcases hN with rfl | rfl | rfl <;> decide +kernel
     intro d hd; rw [this] at hd; simp at hd
-  have := (Family.frac_sound fieldOps_fieldLike (all_ok f_inv_left (by simp [families])) rfl rfl (ks := [N]) hN (j := j) hj env hall).2
+  have := (Family.frac_sound fieldOps_fieldLike (all_ok f_inv_left (by simp [families])) rfl rfl rfl (ks := [N]) hN (j := j) hj env hall).2
   refine this.trans ?_
   show (delta (j / N) (j % N)).eval (fieldOps K) env = _
   unfold delta; split <;> simp [one, zero, E.eval]
@@ -44,11 +44,11 @@ theorem determinant_correct {R : Type} [CommRing R] (N : Nat) (hN : [N] ∈ squa
   Family.poly_sound ringOps_ringLike (all_ok f_det (by simp [families])) rfl rfl (ks := [N]) hN (j := 0) Nat.zero_lt_one env
 
 /-- all `frac` families of C10, generic statement -/
-theorem frac_families_correct (f : Family) (hf : f ∈ families) (htm : f.treeMode = false) (hk : f.kind = .frac)
+theorem frac_families_correct (f : Family) (hf : f ∈ families) (htm : f.treeMode = false) (hk : f.kind = .frac) (hdf : f.divFree = false)
     (ks : List Nat) (hks : ks ∈ f.keys) (j : Nat) (hj : j < f.nOut ks) (env : Nat → K)
     (hall : ∀ a ∈ f.allowed ks, a.divOK (fieldOps K) env ∧ a.eval (fieldOps K) env ≠ 0) :
     (f.post ks (lookup f.unit ks).outE j).eval (fieldOps K) env = (f.spec ks j).eval (fieldOps K) env :=
-  (Family.frac_sound fieldOps_fieldLike (all_ok f hf) htm hk hks hj env hall).2
+  (Family.frac_sound fieldOps_fieldLike (all_ok f hf) htm hk hdf hks hj env hall).2
 
 /-- non-vacuity: the 4×4 inverse really is a traced unit with 16 outputs over 16 inputs, dividing -/
 example : (lookup "inv" [4]).nIn = 16 ∧ (lookup "inv" [4]).outs.length = 16 ∧
